@@ -406,10 +406,14 @@ var c02Twin = &diffSpec{
 	Runner:        func(p *oracle.Prog) twin.Result { return c02Shared.run(p) },
 	Gen: func(c *core.Ctx) []oracle.Prog {
 		var progs []oracle.Prog
+		if os.Getenv("VERIF_C02_CORPUS") == "reentrant" { // development aid (c02Run marks the run as capped)
+			return c02ReentProgs(c)
+		}
 		progs = append(progs, c02MultiProgs(c)...)
 		progs = append(progs, c02SeqProgs(c)...)
 		progs = append(progs, c02EdgeProgs(c)...)
 		progs = append(progs, c02StaticProgs(c)...)
+		progs = append(progs, c02ReentProgs(c)...)
 		return progs
 	},
 	Sig: c02TwinSig,
